@@ -5,22 +5,22 @@ Import ListNotations.
 (* ================= induction over constraint trees ================= *)
 Section cst_ind.
   Variable P : cst -> Prop.
-  Hypothesis Hleaf : forall a ct ac p wh sz r pf, P (Node None a ct ac p wh sz r pf).
-  Hypothesis Hnode : forall o x y a ct ac p wh sz r pf, P x -> P y -> P (Node (Some (o, x, y)) a ct ac p wh sz r pf).
+  Hypothesis Hleaf : forall a ct ac p wh sz r pf rl, P (Node None a ct ac p wh sz r pf rl).
+  Hypothesis Hnode : forall o x y a ct ac p wh sz r pf rl, P x -> P y -> P (Node (Some (o, x, y)) a ct ac p wh sz r pf rl).
   Fixpoint cst_ind' (c : cst) : P c :=
     match c with
-    | Node None a ct ac p wh sz r pf => Hleaf a ct ac p wh sz r pf
-    | Node (Some (o, x, y)) a ct ac p wh sz r pf => Hnode o x y a ct ac p wh sz r pf (cst_ind' x) (cst_ind' y)
+    | Node None a ct ac p wh sz r pf rl => Hleaf a ct ac p wh sz r pf rl
+    | Node (Some (o, x, y)) a ct ac p wh sz r pf rl => Hnode o x y a ct ac p wh sz r pf rl (cst_ind' x) (cst_ind' y)
     end.
 End cst_ind.
 
 (* ================= what a match implies, field by field ================= *)
-Definition c_logical (lg : option (lop * cst * cst)) (b : blobm) : list bool :=
+Definition c_logical (w : world) (lg : option (lop * cst * cst)) (b : blobm) : list bool :=
   match lg with
-  | Some (OAnd, x, y) => [matches x b && matches y b]
-  | Some (OOr, x, y) => [matches x b || matches y b]
-  | Some (OXor, x, y) => [xorb (matches x b) (matches y b)]
-  | Some (ONot, x, _) => [negb (matches x b)]
+  | Some (OAnd, x, y) => [matches w x b && matches w y b]
+  | Some (OOr, x, y) => [matches w x b || matches w y b]
+  | Some (OXor, x, y) => [xorb (matches w x b) (matches w y b)]
+  | Some (ONot, x, _) => [negb (matches w x b)]
   | None => []
   end.
 Definition c_camli (camli : ctype) (b : blobm) : list bool := match camli with TNone => [] | t => [ctype_eqb (m_type b) t] end.
@@ -32,17 +32,24 @@ Definition c_whole (whole : N) (b : blobm) : list bool :=
   if N.eqb whole 0 then [] else [ctype_eqb (m_type b) TFile && N.eqb (m_whole b) whole].
 Definition c_refis (refis : N) (b : blobm) : list bool := if N.eqb refis 0 then [] else [N.eqb (m_ref b) refis].
 
-Lemma matches_unfold lg a ct ac p wh sz r pf b :
-  matches (Node lg a ct ac p wh sz r pf) b =
-  let conds := c_logical lg b ++ (if a then [true] else []) ++ c_camli ct b ++
+Definition c_rel (w : world) (rl : option (bool * bool * cst)) (b : blobm) : list bool :=
+  match rl with
+  | Some (parent, all, sub) =>
+      let ms := map (fun r => match find_blob w r with Some q => matches w sub q | None => false end) (related w parent b) in
+      [ctype_eqb (m_type b) TPermanode && (if all then negb (is_nil ms) && forallb (fun x => x) ms else existsb (fun x => x) ms)]
+  | None => [] end.
+
+Lemma matches_unfold w lg a ct ac p wh sz r pf rl b :
+  matches w (Node lg a ct ac p wh sz r pf rl) b =
+  let conds := c_logical w lg b ++ (if a then [true] else []) ++ c_camli ct b ++
                (if ac then [negb (ctype_eqb (m_type b) TNone)] else []) ++ c_perm p b ++ c_whole wh b ++
                (match sz with Some (lo, hi) => [N.leb lo (m_size b) && (N.eqb hi 0 || N.leb (m_size b) hi)] | None => [] end) ++
-               c_refis r b ++ (match pf with Some l => [memN (m_ref b) l] | None => [] end) in
+               c_refis r b ++ (match pf with Some l => [memN (m_ref b) l] | None => [] end) ++ c_rel w rl b in
   match conds with [] => false | _ => forallb (fun x => x) conds end.
-Proof. destruct lg as [[[[] x] y]|]; reflexivity. Qed.
+Proof. destruct lg as [[[[] x] y]|]; destruct rl as [[[pa al] sub]|]; reflexivity. Qed.
 
-Lemma matches_fields lg a ct ac p wh sz r pf b : matches (Node lg a ct ac p wh sz r pf) b = true ->
-  forallb (fun x => x) (c_logical lg b) = true /\ forallb (fun x => x) (c_camli ct b) = true /\
+Lemma matches_fields w lg a ct ac p wh sz r pf rl b : matches w (Node lg a ct ac p wh sz r pf rl) b = true ->
+  forallb (fun x => x) (c_logical w lg b) = true /\ forallb (fun x => x) (c_camli ct b) = true /\
   (ac = true -> ctype_eqb (m_type b) TNone = false) /\
   forallb (fun x => x) (c_perm p b) = true /\ forallb (fun x => x) (c_whole wh b) = true /\
   forallb (fun x => x) (c_refis r b) = true.
@@ -59,9 +66,9 @@ Lemma ctype_eqb_eq a b : ctype_eqb a b = true <-> a = b.
 Proof. destruct a, b; cbn; split; congruence. Qed.
 
 (* ---- L1: onlyMatchesPermanode ---- *)
-Lemma only_perm_sound : forall c b, only_perm c = true -> matches c b = true -> m_type b = TPermanode.
+Lemma only_perm_sound w : forall c b, only_perm c = true -> matches w c b = true -> m_type b = TPermanode.
 Proof.
-  induction c as [a ct ac p wh sz r pf|o x y a ct ac p wh sz r pf IHx IHy] using cst_ind'; intros b Ho Hm;
+  induction c as [a ct ac p wh sz r pf rl|o x y a ct ac p wh sz r pf rl IHx IHy] using cst_ind'; intros b Ho Hm;
     apply matches_fields in Hm as (Hl & Hc & _ & Hp & _); cbn [only_perm] in Ho.
   - rewrite orb_false_r in Ho. apply orb_true_iff in Ho as [Ho|Ho].
     + destruct p as [[pa pv]|]; [|discriminate]. cbn in Hp. rewrite andb_true_r in Hp. apply andb_true_iff in Hp as [Hp _].
@@ -92,11 +99,11 @@ Definition logical_types (lg : option (lop * cst * cst)) : list N :=
   | _ => []
   end.
 
-Lemma perm_types_unfold lg a ct ac p wh sz r pf :
-  perm_types (Node lg a ct ac p wh sz r pf) = match exact_type p with Some v => [v] | None => logical_types lg end.
+Lemma perm_types_unfold lg a ct ac p wh sz r pf rl :
+  perm_types (Node lg a ct ac p wh sz r pf rl) = match exact_type p with Some v => [v] | None => logical_types lg end.
 Proof. cbn [perm_types]. destruct (exact_type p); [reflexivity|]. destruct lg as [[[[] x] y]|]; reflexivity. Qed.
 
-Lemma perm_types_sound : forall c b, wf_blob b -> perm_types c <> [] -> matches c b = true -> typed_by (perm_types c) b = true.
+Lemma perm_types_sound w : forall c b, wf_blob b -> perm_types c <> [] -> matches w c b = true -> typed_by (perm_types c) b = true.
 Proof.
   assert (Hfield : forall (p : option (N * pval)) v b, wf_blob b -> exact_type p = Some v ->
             forallb (fun x => x) (c_perm p b) = true -> typed_by [v] b = true).
@@ -104,8 +111,8 @@ Proof.
     destruct (N.eqb_spec pa attr_node_type) as [->|]; [|discriminate]. injection He as ->.
     cbn in Hp. rewrite andb_true_r in Hp. apply andb_true_iff in Hp as [_ Hp].
     unfold typed_by. cbn. rewrite orb_false_r. apply Hw. exact Hp. }
-  induction c as [a ct ac p wh sz r pf|o x y a ct ac p wh sz r pf IHx IHy] using cst_ind'; intros b Hw Hne Hm;
-    pose proof (matches_fields _ _ _ _ _ _ _ _ _ _ Hm) as (Hl & _ & _ & Hp & _); rewrite perm_types_unfold in Hne |- *.
+  induction c as [a ct ac p wh sz r pf rl|o x y a ct ac p wh sz r pf rl IHx IHy] using cst_ind'; intros b Hw Hne Hm;
+    pose proof (matches_fields _ _ _ _ _ _ _ _ _ _ _ _ Hm) as (Hl & _ & _ & Hp & _); rewrite perm_types_unfold in Hne |- *.
   - destruct (exact_type p) as [v|] eqn:E; [|exfalso; apply Hne; reflexivity]. eapply Hfield; eauto.
   - assert (Hlog : logical_types (Some (o, x, y)) <> [] -> typed_by (logical_types (Some (o, x, y))) b = true).
     { clear Hne. intros Hne. destruct o; cbn [logical_types] in *; try (exfalso; apply Hne; reflexivity).
@@ -121,10 +128,10 @@ Proof.
 Qed.
 
 (* ---- L3: matchesAtMostOneBlob ---- *)
-Lemma at_most_one_sound : forall c b, at_most_one c <> 0%N -> matches c b = true -> m_ref b = at_most_one c.
+Lemma at_most_one_sound w : forall c b, at_most_one c <> 0%N -> matches w c b = true -> m_ref b = at_most_one c.
 Proof.
-  induction c as [a ct ac p wh sz r pf|o x y a ct ac p wh sz r pf IHx IHy] using cst_ind'; intros b Hne Hm;
-    pose proof (matches_fields _ _ _ _ _ _ _ _ _ _ Hm) as (Hl & _ & _ & _ & _ & Hr); cbn [at_most_one] in Hne |- *.
+  induction c as [a ct ac p wh sz r pf rl|o x y a ct ac p wh sz r pf rl IHx IHy] using cst_ind'; intros b Hne Hm;
+    pose proof (matches_fields _ _ _ _ _ _ _ _ _ _ _ _ Hm) as (Hl & _ & _ & _ & _ & Hr); cbn [at_most_one] in Hne |- *.
   - unfold c_refis in Hr. destruct (N.eqb r 0) eqn:E; cbn [negb] in *; [exfalso; apply Hne; reflexivity|].
     cbn in Hr. rewrite andb_true_r in Hr. apply N.eqb_eq in Hr. exact Hr.
   - unfold c_refis in Hr. destruct (N.eqb r 0) eqn:E; cbn [negb] in *.
@@ -136,10 +143,10 @@ Proof.
 Qed.
 
 (* ---- L4: matchesFileByWholeRef ---- *)
-Lemma file_by_whole_sound : forall c b, file_by_whole c = true -> matches c b = true -> m_type b = TFile.
+Lemma file_by_whole_sound w : forall c b, file_by_whole c = true -> matches w c b = true -> m_type b = TFile.
 Proof.
-  induction c as [a ct ac p wh sz r pf|o x y a ct ac p wh sz r pf IHx IHy] using cst_ind'; intros b Ho Hm;
-    pose proof (matches_fields _ _ _ _ _ _ _ _ _ _ Hm) as (Hl & _ & _ & _ & Hw & _); cbn [file_by_whole] in Ho.
+  induction c as [a ct ac p wh sz r pf rl|o x y a ct ac p wh sz r pf rl IHx IHy] using cst_ind'; intros b Ho Hm;
+    pose proof (matches_fields _ _ _ _ _ _ _ _ _ _ _ _ Hm) as (Hl & _ & _ & _ & Hw & _); cbn [file_by_whole] in Ho.
   - cbn [orb] in Ho. unfold c_whole in Hw. destruct (N.eqb wh 0); [discriminate|].
     cbn in Hw. rewrite andb_true_r in Hw. apply andb_true_iff in Hw as [Hw _]. apply ctype_eqb_eq; exact Hw.
   - apply orb_true_iff in Ho as [Ho|Ho].
@@ -150,10 +157,10 @@ Proof.
 Qed.
 
 (* ---- L5: the top-level camliType fields ---- *)
-Lemma top_camli_sound c b : matches c b = true ->
+Lemma top_camli_sound w c b : matches w c b = true ->
   (fst (top_camli c) <> TNone -> m_type b = fst (top_camli c)) /\ (snd (top_camli c) = true -> m_type b <> TNone).
 Proof.
-  destruct c as [lg a ct ac p wh sz r pf]. intros Hm. apply matches_fields in Hm as (_ & Hc & Hac & _). cbn [top_camli fst snd]. split.
+  destruct c as [lg a ct ac p wh sz r pf rl]. intros Hm. apply matches_fields in Hm as (_ & Hc & Hac & _). cbn [top_camli fst snd]. split.
   - intros Hne. destruct ct; try (exfalso; apply Hne; reflexivity); cbn in Hc; rewrite andb_true_r in Hc; apply ctype_eqb_eq; exact Hc.
   - intros E X. specialize (Hac E). rewrite X in Hac. discriminate.
 Qed.
@@ -184,7 +191,7 @@ Proof.
 Qed.
 
 Theorem unsorted_plan_exact : forall w c s, wf_world w -> src_sorted (pick_source c s) = false ->
-  filter (matches c) (candidates w (pick_source c s)) = filter (matches c) w.
+  filter (matches w c) (candidates w (pick_source c s)) = filter (matches w c) w.
 Proof.
   intros w c s Hw Hs.
   assert (Hafter : forall src,
@@ -192,26 +199,26 @@ Proof.
            else if file_by_whole c then SrcFiles
            else let '(camli, anycamli) := top_camli c in
                 if anycamli || negb (ctype_eqb camli TNone) then SrcCamli camli else SrcAll) ->
-    filter (matches c) (candidates w src) = filter (matches c) w).
+    filter (matches w c) (candidates w src) = filter (matches w c) w).
   { intros src ->. destruct (N.eqb (at_most_one c) 0) eqn:E1; cbn [negb].
     - destruct (file_by_whole c) eqn:E2.
-      + cbn [candidates]. apply filter_filter_absorb. intros b _ Hm. rewrite (file_by_whole_sound c b E2 Hm). reflexivity.
+      + cbn [candidates]. apply filter_filter_absorb. intros b _ Hm. rewrite (file_by_whole_sound w c b E2 Hm). reflexivity.
       + destruct (top_camli c) as [camli anycamli] eqn:E3.
         destruct (anycamli || negb (ctype_eqb camli TNone)) eqn:E4; [|reflexivity].
-        assert (Hc : forall b, matches c b = true -> (camli <> TNone -> m_type b = camli) /\ (anycamli = true -> m_type b <> TNone)).
-        { intros b Hm. pose proof (top_camli_sound c b Hm) as X. rewrite E3 in X. exact X. }
+        assert (Hc : forall b, matches w c b = true -> (camli <> TNone -> m_type b = camli) /\ (anycamli = true -> m_type b <> TNone)).
+        { intros b Hm. pose proof (top_camli_sound w c b Hm) as X. rewrite E3 in X. exact X. }
         destruct camli; cbn [candidates];
           try (apply filter_filter_absorb; intros b _ Hm; destruct (Hc b Hm) as [X _]; rewrite X by discriminate; reflexivity).
         cbn in E4. rewrite orb_false_r in E4. subst anycamli.
         apply filter_filter_absorb. intros b _ Hm. destruct (Hc b Hm) as [_ X]. specialize (X eq_refl).
         destruct (m_type b); try reflexivity. exfalso; apply X; reflexivity.
-    - cbn [candidates]. apply filter_filter_absorb. intros b _ Hm. apply N.eqb_neq in E1. rewrite (at_most_one_sound c b E1 Hm). apply N.eqb_refl. }
+    - cbn [candidates]. apply filter_filter_absorb. intros b _ Hm. apply N.eqb_neq in E1. rewrite (at_most_one_sound w c b E1 Hm). apply N.eqb_refl. }
   unfold pick_source in *. destruct (only_perm c) eqn:Eo; [|apply Hafter; reflexivity].
   destruct s; try discriminate.
   all: destruct (perm_types c) as [|t ts] eqn:Et; [apply Hafter; reflexivity|].
   all: cbn [candidates]; apply filter_filter_absorb; intros b Hin Hm.
-  all: rewrite (only_perm_sound c b Eo Hm); cbn [ctype_eqb andb].
-  all: pose proof (perm_types_sound c b) as X; rewrite Et in X; apply X; [|discriminate|exact Hm].
+  all: rewrite (only_perm_sound w c b Eo Hm); cbn [ctype_eqb andb].
+  all: pose proof (perm_types_sound w c b) as X; rewrite Et in X; apply X; [|discriminate|exact Hm].
   all: unfold wf_world in Hw; rewrite Forall_forall in Hw; apply Hw; exact Hin.
 Qed.
 
@@ -321,7 +328,7 @@ Lemma sort_ref_sorted l : StronglySorted rle (fold_right insert_ref [] l).
 Proof. induction l as [|x r IH]; [constructor|]. cbn [fold_right]. apply insert_ref_sorted. exact IH. Qed.
 
 (* ================= the answers of Handler.Query ================= *)
-Definition full (w : world) (c : cst) : list blobm := filter (matches c) w.
+Definition full (w : world) (c : cst) : list blobm := filter (matches w c) w.
 Definition lim {A} (limit : Z) (l : list A) : list A := if Z.leb limit 0 then l else firstn (Z.to_nat limit) l.
 
 Lemma src_sorted_pick c s :
@@ -355,7 +362,7 @@ Proof.
   cbn [planned_sort]. destruct (src_sorted (pick_source c SBlobRefAsc)) eqn:Es.
   - exfalso. rewrite src_sorted_pick, andb_false_r in Es. discriminate.
   - rewrite (unsorted_plan_exact w c _ Hw Es). intros H. injection H as <-.
-    exists (fold_right insert_ref [] (filter (matches c) w)). split; [apply sort_ref_perm|]. split; [apply sort_ref_sorted|reflexivity].
+    exists (fold_right insert_ref [] (filter (matches w c) w)). split; [apply sort_ref_perm|]. split; [apply sort_ref_sorted|reflexivity].
 Qed.
 
 (* time sorts over the pre-sorted permanode enumerations *)
@@ -363,17 +370,17 @@ Definition alive (key : blobm -> option Z) (b : blobm) : bool := negb (m_deleted
 
 Lemma sorted_source_result (key : blobm -> option Z) w c :
   only_perm c = true ->
-  let res := filter (matches c) (sort_desc key (filter (fun b => ctype_eqb (m_type b) TPermanode && negb (m_deleted b) && is_some (key b)) w)) in
-  Permutation res (filter (fun b => matches c b && alive key b) w) /\ StronglySorted (kge key) res.
+  let res := filter (matches w c) (sort_desc key (filter (fun b => ctype_eqb (m_type b) TPermanode && negb (m_deleted b) && is_some (key b)) w)) in
+  Permutation res (filter (fun b => matches w c b && alive key b) w) /\ StronglySorted (kge key) res.
 Proof.
   intros Ho res. split.
   - subst res. eapply Permutation_trans.
     + apply Permutation_filter'. apply sort_desc_perm.
-    + assert (E : forall l, filter (matches c) (filter (fun b => ctype_eqb (m_type b) TPermanode && negb (m_deleted b) && is_some (key b)) l)
-                  = filter (fun b => matches c b && alive key b) l).
+    + assert (E : forall l, filter (matches w c) (filter (fun b => ctype_eqb (m_type b) TPermanode && negb (m_deleted b) && is_some (key b)) l)
+                  = filter (fun b => matches w c b && alive key b) l).
       { induction l as [|x l IH]; [reflexivity|]. cbn [filter]. unfold alive at 1.
-        destruct (matches c x) eqn:Em.
-        - rewrite (only_perm_sound c x Ho Em). cbn [ctype_eqb andb].
+        destruct (matches w c x) eqn:Em.
+        - rewrite (only_perm_sound w c x Ho Em). cbn [ctype_eqb andb].
           destruct (negb (m_deleted x) && is_some (key x)) eqn:Ea; cbn [filter]; rewrite ?Em; [f_equal|]; exact IH.
         - cbn [andb]. destruct (ctype_eqb (m_type x) TPermanode && negb (m_deleted x) && is_some (key x)); cbn [filter]; rewrite ?Em; exact IH. }
       rewrite E. apply Permutation_refl.
@@ -386,7 +393,7 @@ Definition sort_key (s : sortt) : blobm -> option Z := match s with SLastModDesc
 Theorem query_time_sorted : forall w c s limit l,
   query w c s limit = QOrdered l -> planned_sort c s = SLastModDesc \/ planned_sort c s = SCreatedDesc ->
   exists sorted_full, let key := sort_key (planned_sort c s) in
-    Permutation sorted_full (filter (fun b => matches c b && alive key b) w) /\ StronglySorted (kge key) sorted_full /\
+    Permutation sorted_full (filter (fun b => matches w c b && alive key b) w) /\ StronglySorted (kge key) sorted_full /\
     l = map m_ref (lim limit sorted_full).
 Proof.
   intros w c s limit l. unfold query. destruct (valid c); cbn [negb]; [|discriminate].
@@ -399,12 +406,16 @@ Proof.
 Qed.
 
 (* with no deleted or time-less permanode among the matches, the time-sorted answer is the full result *)
-Corollary alive_full key w c : Forall (fun b => matches c b = true -> alive key b = true) w ->
-  filter (fun b => matches c b && alive key b) w = full w c.
+Lemma alive_full_gen key w c l : Forall (fun b => matches w c b = true -> alive key b = true) l ->
+  filter (fun b => matches w c b && alive key b) l = filter (matches w c) l.
 Proof.
-  unfold full. induction w as [|x w IH]; intros H; [reflexivity|]. inversion H as [|? ? Hx Hw]; subst. cbn [filter].
-  destruct (matches c x) eqn:E; cbn [andb]; [rewrite (Hx eq_refl); f_equal|]; apply IH; exact Hw.
+  induction l as [|x l IH]; intros H; [reflexivity|]. inversion H as [|? ? Hx Hl]; subst. cbn [filter].
+  destruct (matches w c x) eqn:E; cbn [andb]; [rewrite (Hx eq_refl); f_equal|]; apply IH; exact Hl.
 Qed.
+
+Corollary alive_full key w c : Forall (fun b => matches w c b = true -> alive key b = true) w ->
+  filter (fun b => matches w c b && alive key b) w = full w c.
+Proof. apply alive_full_gen. Qed.
 
 (* the limited answer is the first N of the unlimited one *)
 Theorem query_limit_prefix : forall w c s n l, query w c s (Z.pos n) = QOrdered l ->
@@ -431,10 +442,10 @@ Qed.
 
 (* the sorted sources really do leave out matching permanodes: the result set depends on the sort (finding D7) *)
 Definition d7_world : world :=
-  [ {| m_ref := 1; m_type := TPermanode; m_size := 10; m_deleted := false; m_mtime := Some 5%Z; m_ctime := Some 5%Z; m_attrs := []; m_ntypes := []; m_whole := 0 |};
-    {| m_ref := 2; m_type := TPermanode; m_size := 10; m_deleted := true; m_mtime := Some 7%Z; m_ctime := Some 7%Z; m_attrs := []; m_ntypes := []; m_whole := 0 |};
-    {| m_ref := 3; m_type := TPermanode; m_size := 10; m_deleted := false; m_mtime := None; m_ctime := None; m_attrs := []; m_ntypes := []; m_whole := 0 |} ]%N.
-Definition d7_cst : cst := Node None false TPermanode false None 0 None 0 None.
+  [ {| m_ref := 1; m_type := TPermanode; m_size := 10; m_deleted := false; m_mtime := Some 5%Z; m_ctime := Some 5%Z; m_attrs := []; m_ntypes := []; m_whole := 0; m_kids := [] |};
+    {| m_ref := 2; m_type := TPermanode; m_size := 10; m_deleted := true; m_mtime := Some 7%Z; m_ctime := Some 7%Z; m_attrs := []; m_ntypes := []; m_whole := 0; m_kids := [] |};
+    {| m_ref := 3; m_type := TPermanode; m_size := 10; m_deleted := false; m_mtime := None; m_ctime := None; m_attrs := []; m_ntypes := []; m_whole := 0; m_kids := [] |} ]%N.
+Definition d7_cst : cst := Node None false TPermanode false None 0 None 0 None None.
 
 Lemma sort_dependence :
   wf_world d7_world /\ map m_ref (full d7_world d7_cst) = [1; 2; 3]%N /\
@@ -447,7 +458,7 @@ Proof. split; [repeat constructor; intros v H; discriminate|]. vm_compute. repea
 (* the pre-repair planner rule for "or" (append the two sides' types whatever they are) loses matches (D6) *)
 Fixpoint perm_types_old (c : cst) : list N :=
   match c with
-  | Node logical _ _ _ perm _ _ _ _ =>
+  | Node logical _ _ _ perm _ _ _ _ _ =>
       let lg := match logical with
                 | Some (OAnd, x, y) => match perm_types_old x with [] => perm_types_old y | sa => sa end
                 | Some (OOr, x, y) => perm_types_old x ++ perm_types_old y
@@ -457,18 +468,64 @@ Fixpoint perm_types_old (c : cst) : list N :=
   end.
 
 Definition d6_world : world :=
-  [ {| m_ref := 1; m_type := TPermanode; m_size := 10; m_deleted := false; m_mtime := Some 5%Z; m_ctime := Some 5%Z; m_attrs := [(1, [7]); (2, [9])]; m_ntypes := [7]; m_whole := 0 |};
-    {| m_ref := 2; m_type := TPermanode; m_size := 10; m_deleted := false; m_mtime := Some 7%Z; m_ctime := Some 7%Z; m_attrs := [(2, [8])]; m_ntypes := []; m_whole := 0 |} ]%N.
-Definition leaf_perm (a v : N) : cst := Node None false TNone false (Some (a, PExact v)) 0 None 0 None.
+  [ {| m_ref := 1; m_type := TPermanode; m_size := 10; m_deleted := false; m_mtime := Some 5%Z; m_ctime := Some 5%Z; m_attrs := [(1, [7]); (2, [9])]; m_ntypes := [7]; m_whole := 0; m_kids := [] |};
+    {| m_ref := 2; m_type := TPermanode; m_size := 10; m_deleted := false; m_mtime := Some 7%Z; m_ctime := Some 7%Z; m_attrs := [(2, [8])]; m_ntypes := []; m_whole := 0; m_kids := [] |} ]%N.
+Definition leaf_perm (a v : N) : cst := Node None false TNone false (Some (a, PExact v)) 0 None 0 None None.
 Definition d6_cst : cst :=
-  Node (Some (OAnd, Node None false TPermanode false None 0 None 0 None,
-                    Node (Some (OOr, leaf_perm 1 7, leaf_perm 2 8)) false TNone false None 0 None 0 None)) false TNone false None 0 None 0 None.
+  Node (Some (OAnd, Node None false TPermanode false None 0 None 0 None None,
+                    Node (Some (OOr, leaf_perm 1 7, leaf_perm 2 8)) false TNone false None 0 None 0 None None)) false TNone false None 0 None 0 None None.
 
 Lemma old_or_rule_loses_matches :
   wf_world d6_world /\ map m_ref (full d6_world d6_cst) = [1; 2]%N /\
-  map m_ref (filter (matches d6_cst) (candidates d6_world (SrcTypes (perm_types_old d6_cst)))) = [1]%N /\
+  map m_ref (filter (matches d6_world d6_cst) (candidates d6_world (SrcTypes (perm_types_old d6_cst)))) = [1]%N /\
   perm_types d6_cst = [].
 Proof.
   split; [|vm_compute; repeat split; reflexivity].
   constructor; [intros v H; exact H|]. constructor; [intros v H; discriminate H|constructor].
 Qed.
+
+(* ---- the relation matcher, spelled out ---- *)
+Definition rel_leaf (parent all : bool) (sub : cst) : cst := Node None false TNone false (Some (0%N, PNone)) 0 None 0 None (Some (parent, all, sub)).
+
+Lemma relation_any_spec w parent sub b :
+  matches w (rel_leaf parent false sub) b = true <->
+  m_type b = TPermanode /\ exists r q, In r (related w parent b) /\ find_blob w r = Some q /\ matches w sub q = true.
+Proof.
+  unfold rel_leaf. rewrite matches_unfold. cbn [c_logical c_camli c_perm c_whole c_refis c_rel app N.eqb orb forallb].
+  rewrite !andb_true_r. split.
+  - intros H. apply andb_true_iff in H as [Ht H]. apply andb_true_iff in H as [_ H]. split; [apply ctype_eqb_eq; exact Ht|].
+    apply existsb_exists in H as (x & Hx & ->). apply in_map_iff in Hx as (r & Hr & Hin).
+    destruct (find_blob w r) as [q|] eqn:E; [|discriminate]. exists r, q. repeat split; assumption.
+  - intros [Ht (r & q & Hin & Hf & Hm)]. apply ctype_eqb_eq in Ht. rewrite Ht. cbn [andb].
+    apply existsb_exists. exists true. split; [|reflexivity]. apply in_map_iff. exists r. rewrite Hf. split; assumption.
+Qed.
+
+Lemma relation_all_spec w parent sub b :
+  matches w (rel_leaf parent true sub) b = true <->
+  m_type b = TPermanode /\ related w parent b <> [] /\
+  forall r, In r (related w parent b) -> exists q, find_blob w r = Some q /\ matches w sub q = true.
+Proof.
+  unfold rel_leaf. rewrite matches_unfold. cbn [c_logical c_camli c_perm c_whole c_refis c_rel app N.eqb orb forallb].
+  rewrite !andb_true_r. split.
+  - intros H. apply andb_true_iff in H as [Ht H]. apply andb_true_iff in H as [_ H]. apply andb_true_iff in H as [Hne Hall].
+    split; [apply ctype_eqb_eq; exact Ht|]. split.
+    + intros E. rewrite E in Hne. discriminate.
+    + intros r Hin. rewrite forallb_forall in Hall.
+      specialize (Hall _ (in_map (fun r => match find_blob w r with Some q => matches w sub q | None => false end) _ r Hin)).
+      cbv beta in Hall. destruct (find_blob w r) as [q|]; [exists q; split; [reflexivity|exact Hall]|discriminate].
+  - intros (Ht & Hne & Hall). apply ctype_eqb_eq in Ht. rewrite Ht. cbn [andb]. apply andb_true_iff. split.
+    + destruct (related w parent b); [contradiction|reflexivity].
+    + apply forallb_forall. intros x Hx. apply in_map_iff in Hx as (r & <- & Hin). destruct (Hall r Hin) as (q & -> & Hm). exact Hm.
+Qed.
+
+(* P1 has the live children P2 and P3; P3 is tagged (attribute 2, value 8) *)
+Definition rel_world : world :=
+  [ {| m_ref := 1; m_type := TPermanode; m_size := 10; m_deleted := false; m_mtime := Some 5%Z; m_ctime := Some 5%Z; m_attrs := []; m_ntypes := []; m_whole := 0; m_kids := [2; 3]%N |};
+    {| m_ref := 2; m_type := TPermanode; m_size := 10; m_deleted := false; m_mtime := Some 6%Z; m_ctime := Some 6%Z; m_attrs := []; m_ntypes := []; m_whole := 0; m_kids := [] |};
+    {| m_ref := 3; m_type := TPermanode; m_size := 10; m_deleted := false; m_mtime := Some 7%Z; m_ctime := Some 7%Z; m_attrs := [(2, [8])]%N; m_ntypes := []; m_whole := 0; m_kids := [] |} ]%N.
+
+Lemma relation_examples :
+  query rel_world (rel_leaf false false (leaf_perm 2 8)) SBlobRefAsc (-1) = QOrdered [1%N] /\       (* has a child tagged 8 *)
+  query rel_world (rel_leaf false true (leaf_perm 2 8)) SBlobRefAsc (-1) = QOrdered [] /\           (* all children tagged 8: no *)
+  query rel_world (rel_leaf true false (rel_leaf false false (leaf_perm 2 8))) SBlobRefAsc (-1) = QOrdered [2; 3]%N.  (* siblings of a tagged child, and itself *)
+Proof. vm_compute. repeat split. Qed.
